@@ -236,9 +236,13 @@ def rule_a(rep, cx):
     rep.floor('R16.a', 3)
 
 
-def _empty_cookie(cx, e):
+COOKIE_CTORS = ('cls', 'JSONCookie')
+MW_COOKIE_CTORS = ('self._cookie_type', 'type(self)._cookie_type', 'self.__class__._cookie_type', 'JSONCookie')
+
+
+def _empty_cookie(cx, e, ctors=COOKIE_CTORS):
     """``cls(<no data>, ...)`` / ``JSONCookie(<no data>, ...)`` (data = first parameter of SecureCookie.__init__)."""
-    if not (isinstance(e, ast.Call) and norm(e.func) in ('cls', 'JSONCookie')):
+    if not (isinstance(e, ast.Call) and norm(e.func) in ctors):
         return False
     if any(isinstance(a, ast.Starred) for a in e.args) or any(k.arg is None for k in e.keywords):
         return False
@@ -795,6 +799,15 @@ def rule_d(rep, cx):
               'save_cookie on the next() result can be skipped', ck, saves[0] if saves else rq.node)
     ok = all(isinstance(r.value, ast.Name) and r.value.id in nd for r in returns_of(rq)) and returns_of(rq)
     rep.check('R16.d', fkey(rq, 'return'), bool(ok), 'returns the next() result' if ok else 'does not return the next() result', ck, rq.node)
+    if ok and saves:
+        # ... and the names still hold it where they are used: the response the cookie is saved on is the one returned
+        from ..effects import Flow
+        fl = Flow(rq)
+        uses = [(argn(c, 'response', 0), stmt_of(ck, c)) for c in saves] + [(r.value, r) for r in returns_of(rq)]
+        stale = [(e, at) for e, at in uses if not (isinstance(e, ast.Name) and _holds_next_result(fl, e.id, at, nd, 0))]
+        rep.check('R16.d', fkey(rq, 'one response'), not stale, 'the response the cookie is saved on and the response returned are the next() result' if not stale else
+                  '%s no longer holds the next() result at %s (re-bound in between): the Set-Cookie header is put on a response that is not the one returned'
+                  % (norm(stale[0][0]), short(stale[0][1], 40)), ck, stale[0][1] if stale else rq.node)
     for s, absent_implied in _stamps(cx, rq, cvar):
         cs = conds(rq, s)
         excluded = _excluded_expiry(cx, rq, cs)
@@ -822,10 +835,29 @@ def rule_d(rep, cx):
     rep.floor('R16.d', 9)
 
 
+def _holds_next_result(fl, name, at, nd, depth):
+    """Every definition of local ``name`` that reaches statement ``at`` binds the value of the next() call (directly, or by
+    copying a local that holds it there)."""
+    from .c15 import is_next_call
+    ds = fl.reaching(name, at) if name in fl.defs else []
+    if not ds or depth > 6:
+        return False
+    for d in ds:
+        if d.kind != 'assign' or d.idx is not None:
+            return False
+        if is_next_call(d.value):
+            continue
+        if isinstance(d.value, ast.Name) and d.value.id in nd and _holds_next_result(fl, d.value.id, d.stmt, nd, depth + 1):
+            continue
+        return False
+    return True
+
+
 RANDOM_BYTES = ('os.urandom', 'secrets.token_bytes')
 PER_CALL = 'per call'
 MEMOISERS = ('lru_cache', 'cache', 'cached', 'memoize', 'memoized', 'memoise', 'cached_property', 'cachedproperty')
 PARTIALS = ('functools.partial', 'partial')
+KEY_ENCODERS = ('hexlify', 'b2a_hex', 'b64encode', 'urlsafe_b64encode', 'standard_b64encode', 'hex', 'bytes', 'bytearray')
 SELF_TEXTS = ('self', 'cls', 'type(self)', 'self.__class__')
 
 
@@ -879,6 +911,17 @@ class _KeyFlow(object):
                 return self.constant(mod, fi, defs[0][1], env, depth + 1)
             if defs or defs is None:
                 return _NOFOLD
+        if isinstance(e, ast.Attribute) and depth < 6:
+            # a class-level constant read through self / cls / the class name (never bound on the instance)
+            ci = self._class_of(mod, fi, e.value)
+            if ci is not None:
+                owner, v = self.repo.class_attr(ci, e.attr)
+                bound = any(isinstance(t, ast.Attribute) and t.attr == e.attr and isinstance(t.ctx, ast.Store)
+                            for c in self.repo.mro(ci) if isinstance(c, ClassInfo) and not c.mod.external
+                            for m in c.methods.values() for t in ast.walk(m.node))
+                if owner is not None and isinstance(v, ast.expr) and not bound:
+                    return self.constant(owner.mod, None, v, None, depth + 1)
+            return _NOFOLD
         return self.repo.try_fold(e, mod, _NOFOLD)
 
     # -- names
@@ -992,6 +1035,9 @@ class _KeyFlow(object):
                 return True
         return False
 
+    def _is_modref(self, mod, e):
+        return isinstance(e, ast.Name) and self.repo.resolve(mod, e.id)[0] == 'module'
+
     def _call(self, mod, fi, e, env, when, seen):
         f = e.func
         if self._is_random(mod, f):
@@ -1000,6 +1046,17 @@ class _KeyFlow(object):
             return [('expr', short(e, 40), when, mod)]
         tgt = self._callable(mod, fi, f, env, 0)
         if tgt is None:
+            # a pure re-encoding of random bytes (hexlify, b64encode, .hex(), bytes()) is as random as its argument
+            inner = None
+            if call_tail(e) in KEY_ENCODERS and not e.keywords:
+                if isinstance(f, ast.Attribute) and not e.args and not self._is_modref(mod, f.value):
+                    inner = f.value
+                elif len(e.args) == 1:
+                    inner = e.args[0]
+            if inner is not None:
+                sub = self.atoms(mod, fi, inner, env, when, seen)
+                if sub and all(a[0] == 'random' for a in sub):
+                    return sub
             return [('expr', short(e, 40), when, mod)]
         kind, obj, omod, skip_first, per_instance = tgt
         if kind == 'partial':
@@ -1727,7 +1784,10 @@ def rule_g(rep, cx):
         at = stmt_of(ck, c)
         used = [n.id for n in ast.walk(c) if isinstance(n, ast.Name) and n.id in names] or [cvar]
         ds = [d for nm in used for d in fl.reaching(nm, at)]
-        ok = bool(ds) and all(d.kind == 'assign' and (d.stmt is lst or (isinstance(d.value, ast.Name) and d.value.id in names)) for d in ds)
+        # (or, where the middleware itself guards the load: the empty cookie of the configured type, with the middleware's key)
+        ok = bool(ds) and all(d.kind == 'assign' and (d.stmt is lst or (isinstance(d.value, ast.Name) and d.value.id in names) or
+                                                      (_empty_cookie(cx, d.value, MW_COOKIE_CTORS) and norm(argn(d.value, 'secret_key', 1)) == 'self.secret_key'))
+                              for d in ds)
         rep.check('R16.g', fkey(rq, '%s object' % what), ok, 'the cookie %s is the object load_cookie returned' % what if ok else
                   'the cookie %s can be another object than the one load_cookie returned (re-bound: %s)'
                   % (what, '; '.join(short(d.stmt, 40) if d.stmt is not None else 'unbound' for d in ds if d.stmt is not lst)), ck, c)
